@@ -45,7 +45,7 @@ Definition audited : list audit := [
   A "ast" "ast.go" "PrintState.needParen" "panic" 1 FE "precedence table total on infix/prefix/index tokens (C08 print_total, Gen_Prec)";
   (* ---------------------------------------------------------------- ast/modify.go *)
   A "ast" "modify.go" "Modify" "assert" 5 U "nc.(*Statements)/nb.(*Statements): none of the three callbacks (ModifyRegister, ExpandMacros, evalUnquoteCalls) replaces a *Statements; parameters use the checked form since f881ef4";
-  A "ast" "modify.go" "Modify" "index" 13 U "indices range over len() of the slice just made with make(len) / map store";
+  A "ast" "modify.go" "Modify" "index" 14 U "indices range over len() of the slice just made with make(len) / map store / (fix 4ad1aa4) a comma-ok map lookup of the key that is stored on the next line: keys are node pointers, hashable";
   A "ast" "modify.go" "Modify" "make" 6 U "make(len(existing slice)): bounded by the parsed tree";
   A "ast" "modify.go" "Modify" "panic" 1 U "key taken from node.Order is always in node.Pairs (parser/Modify insert both together)";
   A "ast" "priority_string.go" "Priority.String" "index" 2 FE "stringer: guarded by i >= len(_Priority_index)-1 test";
